@@ -2,6 +2,8 @@
 // alphabets. Targets: codecs (random byte strings), fixed (uintN_to_hex /
 // hex_to_uintN), codecs_enum (exhaustive small spaces).
 #include "vpbt.h"
+#include <exception>
+#include <pthread.h>
 #include <igris/string/hexascii_string.h>
 #include <igris/util/base64.h>
 #include <igris/util/hexascii.h>
@@ -420,6 +422,57 @@ VP_TARGET("codecs_long", codecs_long,
           "(65536), content = drawn 1..16 byte pattern varied per 64-byte block, through the same hexascii/base64 "
           "oracles as 'codecs'; non-trivial = length >= 255 (beyond any one-byte counter)");
 
+
+// ------------------------------------------------- large strings on a small stack
+// A firmware image or a log dump of 128..300 KB goes through the codecs on a thread whose stack is 256 KB (a worker thread /
+// an RTOS task): nothing in a codec may need memory in proportion to its input other than the output it returns.
+struct ThreadJob
+{
+    Case *c;
+    const uint8_t *x;
+    size_t n;
+    std::exception_ptr err;
+};
+static void *thread_body(void *arg)
+{
+    ThreadJob *j = (ThreadJob *)arg;
+    try
+    {
+        check_bytes(*j->c, j->x, j->n);
+    }
+    catch (...)
+    {
+        j->err = std::current_exception();
+    }
+    return nullptr;
+}
+static void codecs_small_stack(Src &s, Case &c)
+{
+    size_t n = s.coin() ? (size_t)s.range(140000, 300000) : (size_t)s.pick<uint32_t>({131072, 200000, 262143, 262144, 262145, 300000});
+    size_t plen = (size_t)s.range(1, 16);
+    uint8_t pat[16];
+    for (size_t i = 0; i < plen; i++)
+        pat[i] = s.u8();
+    std::vector<uint8_t> x(n);
+    for (size_t i = 0; i < n; i++)
+        x[i] = (uint8_t)(pat[i % plen] + (uint8_t)(i / 64) * 37u + (uint8_t)(i >> 16) * 11u);
+    c.log("n=%zu on a thread with a 256 KB stack, pattern=%s", n, hexdump(pat, plen, 16).c_str());
+    c.nontrivial = true;
+    c.label(n % 3 == 0 ? "len%3=0" : n % 3 == 1 ? "len%3=1" : "len%3=2");
+    ThreadJob job{&c, x.data(), n, nullptr};
+    pthread_attr_t at;
+    pthread_attr_init(&at);
+    pthread_attr_setstacksize(&at, 256 * 1024);
+    pthread_t th;
+    VP_CHECK(pthread_create(&th, &at, thread_body, &job) == 0, "harness_thread", "pthread_create failed");
+    pthread_join(th, nullptr);
+    pthread_attr_destroy(&at);
+    if (job.err)
+        std::rethrow_exception(job.err);
+}
+VP_TARGET("codecs_small_stack", codecs_small_stack,
+          "byte string of 128 KB .. 300 KB through the hexascii / base64 oracles of 'codecs' on a thread with a 256 KB stack: a codec that needs stack in proportion to its "
+          "input ends in a stack overflow (reported by the sanitizer as a crash)");
 
 // --------------------------------------------------------------- enumeration
 // quick:    all byte strings of length <= 2 over all 256 bytes, length 3..4 over
